@@ -104,7 +104,11 @@ type callSpec struct {
 	api string
 	cfg string
 	val *Val
+	x   *Expect
 }
+
+var invalidJSON = []string{`{"a":`, `{'a':1}`, ``, `[1,]`, `nope`, `{"a":1}}`, `{"a" 1}`, " "}
+var invalidYAML = []string{"a: [1, 2", "a:\n\t- b", "\"unterminated", "{a: 1", "a: b: c"}
 
 func (g *fgen) call(apis []string, cfgs []string) *callSpec {
 	api := apis[g.r.Intn(len(apis))]
@@ -133,6 +137,15 @@ func (g *fgen) call(apis []string, cfgs []string) *callSpec {
 		}
 	case "json", "sjson":
 		switch {
+		case g.chance(0.08):
+			c.x = &Expect{Invalid: true}
+			if g.chance(0.25) {
+				c.val = goVal("chan")
+			} else if g.chance(0.5) {
+				c.val = bytesVal(g.pick(invalidJSON...))
+			} else {
+				c.val = strVal(g.pick(invalidJSON...))
+			}
 		case g.chance(0.2):
 			c.val = goVal(g.pick(goMarshalable...))
 		case g.chance(0.3):
@@ -142,6 +155,15 @@ func (g *fgen) call(apis []string, cfgs []string) *callSpec {
 		}
 	case "yaml":
 		switch {
+		case g.chance(0.08):
+			c.x = &Expect{Invalid: true}
+			if g.chance(0.25) {
+				c.val = goVal("chan")
+			} else if g.chance(0.5) {
+				c.val = bytesVal(g.pick(invalidYAML...))
+			} else {
+				c.val = strVal(g.pick(invalidYAML...))
+			}
 		case g.chance(0.2):
 			c.val = goVal(g.pick(goMarshalable...))
 		case g.chance(0.3):
@@ -217,7 +239,7 @@ func (g *fgen) steps(p *program, repeat int, interleave bool) []*Step {
 				c := p.calls[t][idx[t]]
 				idx[t]++
 				remaining--
-				out = append(out, &Step{Op: "match", Name: t, API: c.api, Cfg: c.cfg, Val: c.val})
+				out = append(out, &Step{Op: "match", Name: t, API: c.api, Cfg: c.cfg, Val: c.val, X: c.x})
 			}
 			for _, t := range order {
 				out = append(out, &Step{Op: "end", Name: t})
@@ -227,7 +249,7 @@ func (g *fgen) steps(p *program, repeat int, interleave bool) []*Step {
 		for _, t := range order {
 			out = append(out, &Step{Op: "begin", Name: t})
 			for _, c := range p.calls[t] {
-				out = append(out, &Step{Op: "match", Name: t, API: c.api, Cfg: c.cfg, Val: c.val})
+				out = append(out, &Step{Op: "match", Name: t, API: c.api, Cfg: c.cfg, Val: c.val, X: c.x})
 			}
 			if g.chance(0.05) {
 				out = append(out, &Step{Op: "noargs", Name: t, Cfg: "c"})
